@@ -397,6 +397,10 @@ def run(ctx):  # noqa: C901, PLR0912, PLR0915
     exponent_never_written(ctx, 'C04.R3')   # what a commit can contain is writable as a schema-valid report
     from .c10 import mk_context_state_checks_handles
     mk_context_state_checks_handles(ctx, 'C04.R1')   # a handle clash is rejected by the call, not by the index in mid-commit
+    # a log call that raises between the commit and the last report loses the reports that were still to be sent
+    common.log_templates_are_constant(ctx, 'C04.R1', ['sdc11073.provider.providerimpl', 'sdc11073.provider.subscriptionmgr',
+                                                      'sdc11073.provider.porttypes', 'sdc11073.provider.periodicreports',
+                                                      'sdc11073.mdib.transactions', 'sdc11073.mdib.providermdib'])
     common.copies_are_deep(ctx, 'C04.R4')   # the copies kept for periodic reports / handed to observers are deep
     common.observers_all_notified(ctx, 'C04.R1')   # every commit reaches the report sender
     # ------------------------------------------------------------------ R5
